@@ -103,6 +103,12 @@ func (vc *VC) modComp(m Expr, spec *FuncSpec, fr *Frame, cc *ssa.CallCommon) []s
 				}
 			}
 		}
+		if m.Name == "$rdpos" {
+			return []string{vc.rdposComp()}
+		}
+		if m.Name == "$chpos" {
+			return []string{vc.chposComp()}
+		}
 		if strings.HasPrefix(m.Name, "$") {
 			vc.comp(m.Name, "Int")
 			return []string{m.Name}
